@@ -92,6 +92,11 @@ jpeg_copy_critical_parameters(j_decompress_ptr srcinfo, j_compress_ptr dstinfo)
   dstinfo->min_DCT_h_scaled_size = srcinfo->min_DCT_h_scaled_size;
   dstinfo->min_DCT_v_scaled_size = srcinfo->min_DCT_v_scaled_size;
 #endif
+  /* jpeg_set_defaults() consults the data precision, so it must already be
+   * that of the image being transcoded rather than that of whichever image
+   * the destination object processed last.
+   */
+  dstinfo->data_precision = srcinfo->data_precision;
   /* Initialize all parameters to default values */
   jpeg_set_defaults(dstinfo);
   /* jpeg_set_defaults may choose wrong colorspace, eg YCbCr if input is RGB.
